@@ -209,6 +209,22 @@ CLAIMED = {
                 "(thorough) texts and trees incl. deep nesting to 1e5/1e6; oracle = extracted JsonSpecRun. Known finding: non-finite doubles (1e999) do not survive to_json. No axioms.",
         "technique": "Coq 8.16 proof over a hand port (JsonDefs.v) + extracted-model/implementation correspondence + extracted specification oracle",
     },
+    "C02": {
+        "category": "translation_validation",
+        "text": "Per-program validation with a Coq-extracted evaluator and optimizer, plus theorems about the optimizer model. For every generated program (optimizer-directed grammar: constant "
+                "expressions incl. division by zero and ternaries, constant conditions, declaration-free blocks, canonical/near-miss for loops with captured or assigned counters, trailing "
+                "returns, unused results, conversions) the implementation is run with and without the optimizer: stdout, value+type, error class+reason and the harness callback count must be "
+                "equal. Tie: the Coq optimizer (nine passes + bottom-up driver, pass order regenerated from the source) applied to the implementation's unoptimised tree must equal the "
+                "implementation's optimised tree node for node, and the Coq evaluator must reproduce the implementation on both trees. Theorems (Properties_C02.v, all trees): Return is the "
+                "identity, Partial_Fold yields the same effect program, a folded binary constant holds exactly the runtime operator's value and nothing is folded when the operator traps, If picks "
+                "the branch eval_if would take, Dead_Code keeps the last child and all non-constant children in order, passes only touch their own node kind, constants stay const. The general "
+                "semantic-preservation theorem (for all programs at once) is NOT proved; it needs location-renaming equivariance of the evaluator (DESIGN.md, stage M4).",
+        "design_ref": "DESIGN.md §6 C02",
+        "note": "Known finding: Constant_Fold folds int(c)/long(c)/… into a shared const constant (attributed by switching that one branch off in the model's optimizer). Constant arithmetic whose "
+                "C++ result is undefined (signed overflow, oversized shifts) is folded by the implementation to whatever its compiler produced: those trees are counted and not compared. "
+                "C++-visible effects are observed through one int callback and stdout only. No axioms.",
+        "technique": "translation validation against Coq-extracted optimizer and evaluator models + Coq theorems about the optimizer passes",
+    },
 }
 PENDING_REASON = "check not built yet in this round (work in progress; see DESIGN.md §6 for the planned Coq model and tie)"
 ALL = ["C%02d" % i for i in range(1, 21)]
